@@ -172,6 +172,8 @@ def recompute(net):
         "out_links": {n: [(u, v, d[LINKENTRY]) for u, v, d in g.out_edges(n, data=True)] for n in g.nodes},
         "elements": [l for _, _, l in edges] + list(origins) + list(dests),
         "nodes": list(g.nodes),
+        "in_links_of_all_nodes_as_list": sorted(((id(u), id(v), id(d[LINKENTRY])) for u, v, d in g.in_edges(list(g.nodes), data=True))),
+        "out_links_of_all_nodes_as_tuple": sorted(((id(u), id(v), id(d[LINKENTRY])) for u, v, d in g.out_edges(list(g.nodes), data=True))),
     }
 
 
@@ -192,6 +194,9 @@ def read_lookups(net):
         "out_links": {n: list(net.out_links(n)) for n in net.nodes},
         "elements": list(net.elements),
         "nodes": list(net.nodes),
+        # per-node lookups asked for a collection of nodes (nbunch may be an iterable of nodes)
+        "in_links_of_all_nodes_as_list": sorted((id(u), id(v), id(l)) for u, v, l in net.in_links(list(net.nodes))) if len(net.nodes) else [],
+        "out_links_of_all_nodes_as_tuple": sorted((id(u), id(v), id(l)) for u, v, l in net.out_links(tuple(net.nodes))) if len(net.nodes) else [],
     }
     return out
 
